@@ -54,15 +54,18 @@ def coqchk(pid):
         h.update(("%s:%d:%d;" % (v, stt.st_size, int(stt.st_mtime))).encode())
     d = os.path.join(BUILD, "coqchk")
     os.makedirs(d, exist_ok=True)
-    cache = os.path.join(d, "%s-%s.json" % (pid, h.hexdigest()[:16]))
+    # one run covers every property file (their dependency closures overlap almost entirely)
+    cache = os.path.join(d, "all-%s.json" % h.hexdigest()[:16])
     if os.path.exists(cache):
         return json.load(open(cache))
     t0 = time.time()
-    rc, out, _ = run(["coqchk", "-silent", "-o", "-Q", "theories", "Strcase", "-Q", "gen", "StrcaseGen",
-                      "Strcase.Properties." + pid], cwd=COQ, timeout=3 * 3600)
+    mods = ["Strcase.Properties." + os.path.basename(v)[:-3]
+            for v in sorted(glob.glob(os.path.join(COQ, "theories", "Properties", "C*.vo")))]
+    rc, out, _ = run(["coqchk", "-silent", "-o", "-Q", "theories", "Strcase", "-Q", "gen", "StrcaseGen"] + mods,
+                     cwd=COQ, timeout=4 * 3600)
     m = re.search(r'\* Axioms:(.*?)\n\s*\n\* Constants', out, re.S)
     res = {"rc": rc, "seconds": round(time.time() - t0), "axioms": " ".join((m.group(1) if m else "?").split()),
-           "tail": "" if rc == 0 else out[-800:]}
+           "modules": mods, "tail": "" if rc == 0 else out[-800:]}
     json.dump(res, open(cache, "w"))
     return res
 
